@@ -836,6 +836,35 @@ class Gen(object):
         secs = self.secs()
         if len(secs) < 2:
             return None
+        mem = self.__dict__.setdefault("_foreign_merge", {})
+        if mem.get("pair") is not None:
+            # the wrong-typed merge below was issued: the Property gets values, then the
+            # document (or a linking Section above) is cleaned / its link is taken away
+            ti, xi = mem["pair"]
+            t = self.U.objs[ti] if ti is not None and ti < len(self.U.objs) else None
+            x = self.U.objs[xi] if xi is not None and xi < len(self.U.objs) else None
+            if t is None or x is None or kind_of(t) != "sec" or kind_of(x) != "prop" or not t.is_merged:
+                mem.clear()
+            elif not x.values:
+                return {"op": "set_values", "x": self.ref(x), "v": "abc"}
+            else:
+                mem.clear()
+                above = [a for a in self.U.ancestors(t) if kind_of(a) == "sec" and a.link is not None]
+                if above and self.chance(0.5):
+                    return {"op": "set_link", "x": self.ref(above[0]), "path": None}
+                return {"op": "clean", "x": self.cref(self.U.top(t))}
+        if self.fault() and self.chance(0.2) and self.props():
+            # wrong type: a Property (by preference one without values, which looks like an empty
+            # container) handed in as the source of a Section's merge - by preference to a Section
+            # of a document that holds a resolved link, or inside such a Section
+            empty = [p for p in self.props() if not p.values]
+            x = self.pick(empty) if (empty and self.chance(0.7)) else self.pick(self.props())
+            near = [s_ for s_ in secs if any(kind_of(o) == "sec" and o.is_merged and o.link is not None
+                                             for o in self.U.subtree(self.U.top(s_)))]
+            t = self.pick(near) if (near and self.chance(0.7)) else self.pick(secs)
+            if not x.values and not t.is_merged:
+                mem["pair"] = (self.U.index(t), self.U.index(x))
+            return {"op": "merge", "t": self.ref(t), "x": self.ref(x), "strict": self.chance(0.5)}
         if self.fault() and self.chance(0.3):
             # a merge that has to be refused, issued on a Section whose link is resolved (state in
             # flight: copies and what the link brought along are in place)
